@@ -652,6 +652,12 @@ class Gen:
             t.append([r.choice(['BI', 'bi']), 'i', r.randint(1, 3)])
         if r.random() < 0.04:
             t.append(['re', 'Z', 'quirk'])
+        for name in ('fe', 'na', 'en', 'me'):      # two letters that occur INSIDE reference_name / mapping_quality ...
+            if r.random() < 0.35:
+                t.append([name, r.choice(['i', 'i', 'Z']), None])
+        for x in t:
+            if x[2] is None:
+                x[2] = r.choice([1, 2, 3, 5]) if x[1] == 'i' else r.choice(['2', '0.5', '1.5'])
         if r.random() < 0.4:
             t.append(['fv', 'Z', r.choice(['0.5', '1.25', '-2', '3.', '7', 'x', ' 7', '0.5 '])])
         r.shuffle(t)
@@ -739,7 +745,7 @@ class Gen:
         else:
             o['featureTags'] = ','.join(tags)
         if r.random() < 0.3:
-            o['byValue'] = r.choice(['RC', 'RC', 'fv', 'DS', 'XX', tags[0], ''])
+            o['byValue'] = r.choice(['RC', 'RC', 'fv', 'DS', 'XX', tags[0], '', 'fe', 'na', 'en', 'me', 'fe', 'na'])
         if r.random() < 0.25:
             o['splitFeatures'] = True
             o['featureDelimiter'] = r.choice([',', ',', ',', ',,', 'g', '1', ''])
@@ -846,7 +852,7 @@ class Prop(fw.PropBase):
         quick = self.tier == 'quick'
         g = Gen(self.rng)
         libs, cases = [], []
-        nlib = 160 if quick else 2000
+        nlib = 160 if quick else 1400
         per = 10 if quick else 14
         for i in range(nlib):
             libs.append(g.lib(self.rng.choice([1, 2, 3, 5, 8, 12, 20, 30]), malformed=self.rng.random() < 0.1))
@@ -917,116 +923,206 @@ class Prop(fw.PropBase):
             return 'ok', df, 'dataframe-differs-from-counter'
         return 'ok', df, None
 
-    # ---------------------------------------------------------------- K
-    def correspondence(self):
+    # ---------------------------------------------------------------- running the implementation
+    @staticmethod
+    def direct_spec(o):
+        """what create_count_table derives from the options and hands to assignReads"""
+        orc = Oracle(o)
+        return {'joined': orc.joined, 'ft': orc.ft, 'stags': orc.stags} if orc.ft else None
+
+    @staticmethod
+    def direct_opts(o):
+        d = dict(o)
+        d.pop('contig', None); d.pop('bed', None)
+        return d
+
+    def build_histories(self, libs, nlib, fx):
+        """sequences of option sets run on ONE namespace; consecutive steps differ in a few options"""
+        quick = self.tier == 'quick'
+        g = Gen(self.rng)
+        hs = []
+        base = {'joinedFeatureTags': 'chrom', 'sampleTags': 'SM'}
+        for sel in ('r1only', 'r2only'):
+            for extra in ({}, {'divideMultimapping': True}, {'featureTags': 'chrom,RC', 'joinedFeatureTags': None}):
+                b = dict(base); b.update(extra)
+                on = dict(b); on[sel] = True
+                hs.append({'lib': fx, 'steps': [dict(b), on, dict(b)]})
+                hs.append({'lib': fx, 'steps': [on, dict(b, doNotDivideFragments=True), dict(b)]})
+        for _ in range(40 if quick else 400):
+            i = self.rng.randrange(nlib)
+            o = g.opts()
+            o.pop('bed', None)
+            steps = [o]
+            for _ in range(self.rng.choice([1, 2, 3])):
+                n = dict(steps[-1])
+                for k in self.rng.sample(['r1only', 'r2only', 'r1only', 'r2only', 'doNotDivideFragments', 'divideMultimapping',
+                                          'dedup', 'no_indels', 'filterXA', 'minMQ', 'byValue', 'contig', 'splitFeatures'],
+                                         self.rng.choice([1, 1, 2, 3])):
+                    if k == 'minMQ':
+                        n[k] = self.rng.choice([0, 20, 60])
+                    elif k == 'byValue':
+                        n[k] = None if n.get(k) is not None else self.rng.choice(['RC', 'fv', 'fe'])
+                    elif k == 'contig':
+                        n[k] = None if n.get(k) is not None else 'chr1'
+                    else:
+                        n[k] = not n.get(k, False)
+                steps.append(n)
+            hs.append({'lib': i, 'steps': steps})
+        return hs
+
+    def run_all(self):
         clibs, ccases = self.corpus_cases()
         libs, cases = self.build_cases()
         off = len(clibs)
         for c in cases:
             c['lib'] = [i + off for i in c['lib']] if isinstance(c['lib'], list) else c['lib'] + off
+        hists = self.build_histories(libs, len(libs) - 1, len(libs) - 1)
+        for h in hists:
+            h['lib'] += off
         libs, cases = clibs + libs, ccases + cases
-        res = fw.run_impl('impl_c11.py', {'libs': libs, 'cases': cases, 'filter': True})
-        self.libs, self.cases, self.res = libs, cases, res
-        obs, hist = [], {'raise': 0, 'ok_empty': 0, 'ok_nonempty': 0, 'notes': {}}
-        opt_hist = {}
-        for c, r in zip(cases, res['cases']):
-            kind, table, note = self.observed(r, len(c['opts'].get('sampleTags', 'SM').split(',')))
-            obs.append((kind, table))
+        for c in cases:
+            c['direct'] = self.direct_spec(c['opts'])
+        res = fw.run_impl('impl_c11.py', {'libs': libs, 'cases': cases, 'filter': True, 'histories': hists})
+        self.libs, self.cases, self.hists, self.res, self.n_corpus = libs, cases, hists, res, len(ccases)
+        nst = lambda o: len(o.get('sampleTags', 'SM').split(','))
+        items, notes = [], {}
+        for i, (c, r) in enumerate(zip(cases, res['cases'])):
+            kind, table, note = self.observed(r, nst(c['opts']))
+            items.append({'t': 'call', 'opts': c['opts'], 'lib': c['lib'], 'obs': (kind, table), 'i': i})
+            if note:
+                notes[note] = notes.get(note, 0) + 1
+            d = r.get('direct')
+            if d is not None:
+                ob = ('raise', d['error'].split(':')[0]) if 'error' in d else ('ok', cells_dict(d['raw']))
+                items.append({'t': 'direct', 'opts': self.direct_opts(c['opts']), 'lib': c['lib'], 'obs': ob, 'i': i})
+        for hi, (h, steps) in enumerate(zip(hists, res.get('histories', []))):
+            for k, r in enumerate(steps):
+                kind, table, note = self.observed(r, nst(h['steps'][k]))
+                items.append({'t': 'history', 'opts': h['steps'][k], 'lib': h['lib'], 'obs': (kind, table), 'h': hi, 'k': k})
+        self.items, self.obs_notes = items, notes
+        return items
+
+    # ---------------------------------------------------------------- K
+    def correspondence(self):
+        items = self.run_all()
+        libs, cases, res = self.libs, self.cases, self.res
+        hist = {'raise': 0, 'ok_empty': 0, 'ok_nonempty': 0, 'notes': self.obs_notes}
+        opt_hist, kinds = {}, {}
+        for it in items:
+            kind, table = it['obs']
+            kinds[it['t']] = kinds.get(it['t'], 0) + 1
             if kind == 'raise':
                 hist['raise'] += 1
             else:
                 hist['ok_nonempty' if table else 'ok_empty'] += 1
-            if note:
-                hist['notes'][note] = hist['notes'].get(note, 0) + 1
-            for k, v in describe(c['opts']).items():
-                if k in BOOL_OPTS or k in ('blacklist', 'bed', 'contig', 'byValue', 'splitFeatures', 'max_base_edits'):
-                    opt_hist[k] = opt_hist.get(k, 0) + 1
-            m = 'joined' if c['opts'].get('joinedFeatureTags') is not None else 'single'
-            opt_hist[m] = opt_hist.get(m, 0) + 1
-        self.obs = obs
+            if it['t'] != 'direct':
+                for k, v in describe(it['opts']).items():
+                    if k in BOOL_OPTS or k in ('blacklist', 'bed', 'contig', 'byValue', 'splitFeatures', 'max_base_edits'):
+                        opt_hist[k] = opt_hist.get(k, 0) + 1
+                m = 'joined' if it['opts'].get('joinedFeatureTags') is not None else 'single'
+                opt_hist[m] = opt_hist.get(m, 0) + 1
         nreads = sum(len(l['reads']) for l in libs)
         distinct = set()
-        for c, (kind, table) in zip(cases, obs):
+        for it in items:
+            kind, table = it['obs']
             if kind == 'ok' and table:
-                distinct.add(fw.canon_hash([json.dumps(c, sort_keys=True), json.dumps(libs[c['lib'] if isinstance(c['lib'], int) else c['lib'][0]], sort_keys=True)]))
+                l0 = it['lib'] if isinstance(it['lib'], int) else it['lib'][0]
+                distinct.add(fw.canon_hash([it['t'], json.dumps(it['opts'], sort_keys=True), str(it['lib']),
+                                            str(it.get('h')), str(it.get('k')), json.dumps(libs[l0], sort_keys=True)]))
         weights = {}
-        for kind, table in obs:
-            if kind == 'ok':
-                for v in table.values():
+        for it in items:
+            if it['obs'][0] == 'ok':
+                for v in it['obs'][1].values():
                     weights[str(v.denominator)] = weights.get(str(v.denominator), 0) + 1
+        substr_bv = sum(1 for it in items if it['t'] == 'call' and it['opts'].get('byValue') and it['opts'].get('joinedFeatureTags')
+                        and it['opts']['byValue'] not in it['opts']['joinedFeatureTags'].split(',')
+                        and it['opts']['byValue'] in it['opts']['joinedFeatureTags'])
         self.cov.update({
-            'evaluations': len(cases), 'distinct_nontrivial': len(distinct),
-            'rule': 'one evaluation = one create_count_table(args, return_df=True) call on a synthetic BAM; distinct by hash of '
-                    '(options, library); non-trivial = the call returned a non-empty table',
+            'evaluations': len(items), 'distinct_nontrivial': len(distinct),
+            'rule': 'one evaluation = one count table produced by the implementation on a synthetic BAM: a create_count_table('
+                    'args, return_df=True) call with a fresh namespace (call), one step of a history of calls on ONE namespace '
+                    'whose options are edited between the calls (history), or assignReads called directly on every record with '
+                    'the caller\'s options (direct); distinct by hash of (kind, options, position in the history, library); '
+                    'non-trivial = the table is non-empty',
+            'evaluation_kinds': kinds, 'histories': len(self.hists),
+            'byvalue_tag_substring_of_feature_names': substr_bv,
             'libraries': len(libs), 'records': nreads, 'result_histogram': hist, 'option_histogram': opt_hist,
             'cell_denominator_histogram': dict(sorted(weights.items(), key=lambda x: int(x[0]))),
             'exhaustive': False,
             'exhaustive_scope': ('all 2^%d combinations of %s on the fixed %d-record library (%d calls)'
                            % (len(BOOL_OPTS) + 3, BOOL_OPTS + ['minMQ', 'max_base_edits', 'blacklist'],
                               len(fixed_lib()['reads']), self.n_exhaustive)) if self.n_exhaustive else False,
-            'corpus_cases': len(ccases),
+            'corpus_cases': self.n_corpus,
         })
-        s = [i for i, (k, t) in enumerate(obs) if k == 'ok' and t][:3]
-        self.cov['samples'] = [{'opts': describe(cases[i]['opts']), 'records': len(self.reads_of(res, cases[i])),
-                                'impl_table': [[list(k[0]), list(k[1]), str(v)] for k, v in sorted(obs[i][1].items(), key=str)][:6]}
-                               for i in s]
+        s = [it for it in items if it['obs'][0] == 'ok' and it['obs'][1] and it['t'] == 'call'][:2] + \
+            [it for it in items if it['obs'][0] == 'ok' and it['obs'][1] and it['t'] == 'history' and it['k'] > 0][:1]
+        self.cov['samples'] = [{'kind': it['t'], 'opts': describe(it['opts']), 'records': len(self.reads_of(res, it)),
+                                'impl_table': [[list(k[0]), list(k[1]), str(v)] for k, v in sorted(it['obs'][1].items(), key=str)][:6]}
+                               for it in s]
         if not self.model_ok:
             return
-        minputs = [[enc_opts(c['opts']), [enc_read(b) for b in self.reads_of(res, c)]] for c in cases]
+        minputs = [[enc_opts(it['opts']), [enc_read(b) for b in self.reads_of(res, it)]] for it in items]
         mout = fw.run_model('C11', 0, minputs)
         mpre = fw.run_model('C11', 1, minputs)
-        mflt = fw.run_model('C11', 3, minputs)
+        callidx = [n for n, it in enumerate(items) if it['t'] == 'call']
+        mflt = dict(zip(callidx, fw.run_model('C11', 3, [minputs[n] for n in callidx])))
         dis, fdis, nflt = [], [], 0
-        for i, (c, r) in enumerate(zip(cases, res['cases'])):
-            kind, table = obs[i]
-            mk, mt = dec_model(mout[i])
-            if (kind, table) != (mk, mt):
-                dis.append(i)
-            # per-read filter decisions against read_should_be_counted called directly
-            if r.get('filter') is not None and len(r['filter']) == len(mflt[i]):
-                for j, (fi, fm) in enumerate(zip(r['filter'], mflt[i])):
-                    nflt += 1
-                    fm = bool(fm[1]) if fm[0] == 0 else ERRNAME.get(fm[1], 'E')
-                    if fi != fm:
-                        fdis.append((i, j, fi, fm))
+        for n, it in enumerate(items):
+            if it['obs'] != dec_model(mout[n]):
+                dis.append(n)
+            if it['t'] == 'call':
+                r = res['cases'][it['i']]
+                # per-read filter decisions against read_should_be_counted called directly with a fresh namespace
+                if r.get('filter') is not None and len(r['filter']) == len(mflt[n]):
+                    for j, (fi, fm) in enumerate(zip(r['filter'], mflt[n])):
+                        nflt += 1
+                        fm = bool(fm[1]) if fm[0] == 0 else ERRNAME.get(fm[1], 'E')
+                        if fi != fm:
+                            fdis.append((n, j, fi, fm))
         # the proved executable specification (C11_specb_sound) evaluated on the implementation's own output
-        sp = fw.run_model('C11', 2, [[minputs[i], enc_out(*obs[i])] for i in range(len(cases))])
-        spbad = [i for i, v in enumerate(sp) if v != 1]
+        sp = fw.run_model('C11', 2, [[minputs[n], enc_out(*items[n]['obs'])] for n in range(len(items))])
+        spbad = [n for n, v in enumerate(sp) if v != 1]
         self.cov['specb_on_impl_output'] = {'evaluated': len(sp), 'violated': len(spbad)}
         dis = sorted(set(dis) | set(spbad))
-        self.cov['traces_validated_against_impl'] = len(cases)
+        self.cov['traces_validated_against_impl'] = len(items)
         self.cov['filter_decisions_validated'] = nflt
         self.cov['precondition_hit_rate'] = round(sum(1 for v in mpre if v == 1) / max(1, len(mpre)), 4)
         self.cov['disagreements'] = len(dis) + len(fdis)
         # python transcription of the specification against the model (keeps the search oracle honest)
         bad_oracle = 0
-        for i, c in enumerate(cases):
-            exp = Oracle(c['opts']).table(self.reads_of(res, c))
-            if (exp is None) != (mpre[i] == 0):
+        for n, it in enumerate(items):
+            exp = Oracle(it['opts']).table(self.reads_of(res, it))
+            if (exp is None) != (mpre[n] == 0):
                 bad_oracle += 1
-            elif exp is not None and dec_model(mout[i]) != ('ok', exp):
+            elif exp is not None and dec_model(mout[n]) != ('ok', exp):
                 bad_oracle += 1
         self.cov['oracle_vs_model_mismatches'] = bad_oracle
         if bad_oracle:
             self.notes.append('python oracle and Coq model disagree on %d cases (harness defect)' % bad_oracle)
-        small = [i for i in range(len(cases)) if len(minputs[i][1]) <= 6]
+        small = [n for n in range(len(items)) if len(minputs[n][1]) <= 6]
         idx = sorted(self.rng.sample(small, min(100, len(small))))
-        ok, nm, log = fw.vm_crosscheck('C11', 0, [(minputs[i], mout[i]) for i in idx])
+        ok, nm, log = fw.vm_crosscheck('C11', 0, [(minputs[n], mout[n]) for n in idx])
         self.cov['vm_compute_crosscheck'] = {'cases': len(idx), 'mismatches': nm}
         if not ok:
             raise fw.Broken('extraction', 'vm_compute and extracted model disagree: ' + log[-800:])
         if bad_oracle:
             raise fw.Broken('harness', 'python oracle and Coq model disagree on %d cases' % bad_oracle)
         if dis or fdis:
-            self.dis, self.fdis = dis, fdis
             if dis:
-                i = dis[0]
-                d = 'case %d opts=%r: impl=%s model=%s' % (i, describe(cases[i]['opts']), self.show(obs[i]), self.show(dec_model(mout[i])))
+                it = items[dis[0]]
+                d = '%s %s opts=%r: impl=%s model=%s' % (it['t'], self.where(it), describe(it['opts']), self.show(it['obs']),
+                                                          self.show(dec_model(mout[dis[0]])))
             else:
-                i, j, fi, fm = fdis[0]
-                d = 'read_should_be_counted on record %d of case %d opts=%r: impl=%r model=%r' % (j, i, describe(cases[i]['opts']), fi, fm)
+                n, j, fi, fm = fdis[0]
+                d = 'read_should_be_counted on record %d of case %d opts=%r: impl=%r model=%r' % (j, items[n]['i'], describe(items[n]['opts']), fi, fm)
             raise fw.Broken('correspondence', 'model and implementation disagree on %d tables and %d filter decisions; first: %s'
                             % (len(dis), len(fdis), d))
+
+    @staticmethod
+    def where(it):
+        if it['t'] == 'history':
+            return 'history %d step %d' % (it['h'], it['k'])
+        return 'case %d' % it['i']
 
     @staticmethod
     def show(x):
@@ -1050,97 +1146,125 @@ class Prop(fw.PropBase):
         return None
 
     def search(self):
-        if getattr(self, 'res', None) is None:
-            clibs, ccases = self.corpus_cases()
-            libs, cases = self.build_cases()
-            off = len(clibs)
-            for c in cases:
-                c['lib'] = [i + off for i in c['lib']] if isinstance(c['lib'], list) else c['lib'] + off
-            self.libs, self.cases = clibs + libs, ccases + cases
-            self.res = fw.run_impl('impl_c11.py', {'libs': self.libs, 'cases': self.cases, 'filter': True})
-            self.obs = [self.observed(r, len(c['opts'].get('sampleTags', 'SM').split(',')))[:2]
-                        for c, r in zip(self.cases, self.res['cases'])]
-        res, cases = self.res, self.cases
+        if getattr(self, 'items', None) is None:
+            self.run_all()
+        res, items = self.res, self.items
         bad = []
-        for i, c in enumerate(cases):
-            kind, table = self.obs[i]
-            why = self.violates(c['opts'], self.reads_of(res, c), kind, table)
+        for n, it in enumerate(items):
+            why = self.violates(it['opts'], self.reads_of(res, it), *it['obs'])
             if why:
-                bad.append((len(self.reads_of(res, c)), len(describe(c['opts'])), i, why))
+                bad.append((len(self.reads_of(res, it)) + (50 if it['t'] == 'history' else 0), len(describe(it['opts'])), n, why))
         if self.model_ok and bad:
             # the same question put to the proved specification (mode 2 specb) for the first few
             sel = [b[2] for b in sorted(bad)[:20]]
-            inp = [[[enc_opts(cases[i]['opts']), [enc_read(b) for b in self.reads_of(res, cases[i])]], enc_out(*self.obs[i])] for i in sel]
+            inp = [[[enc_opts(items[n]['opts']), [enc_read(b) for b in self.reads_of(res, items[n])]], enc_out(*items[n]['obs'])] for n in sel]
             try:
                 sp = fw.run_model('C11', 2, inp)
                 self.notes.append('specb (mode 2) on the implementation output of %d suspicious cases: %d violated' % (len(sel), sum(1 for v in sp if v == 0)))
             except Exception as e:
                 self.notes.append('specb evaluation failed: %r' % (e,))
         seen = set()
-        for n, _, i, why in sorted(bad):
-            c = cases[i]
-            cat = 'raise:' + self.obs[i][1] if self.obs[i][0] == 'raise' else 'cells'
+        for _, _, n, why in sorted(bad):
+            it = items[n]
+            cat = it['t'] + ':' + ('raise:' + it['obs'][1] if it['obs'][0] == 'raise' else 'cells')
             if cat in seen:
                 continue
             seen.add(cat)
-            w = self.shrink(c, i, why)
+            w = self.shrink(it, why)
             w['key'] = 'table:' + cat
             self.witnesses.append(w)
-            if len(self.witnesses) >= 3:
+            if len(self.witnesses) >= 4:
                 break
 
-    def shrink(self, case, i, why):
+    def rerun(self, t, opts_or_steps, contigs, sublibs):
+        """run one item kind on several small libraries; returns [(reads as pysam sees them, (kind, table))]"""
+        nst = lambda o: len(o.get('sampleTags', 'SM').split(','))
+        libs = [{'contigs': contigs, 'reads': c} for c in sublibs]
+        if t == 'history':
+            out = fw.run_impl('impl_c11.py', {'libs': libs, 'cases': [],
+                                              'histories': [{'lib': k, 'steps': opts_or_steps} for k in range(len(libs))]})
+            return [(out['libs'][k], self.observed(out['histories'][k][-1], nst(opts_or_steps[-1]))[:2]) for k in range(len(libs))]
+        o = opts_or_steps
+        cases = [{'lib': k, 'opts': o, 'direct': self.direct_spec(o) if t == 'direct' else None} for k in range(len(libs))]
+        out = fw.run_impl('impl_c11.py', {'libs': libs, 'cases': cases})
+        obs = []
+        for k, r in enumerate(out['cases']):
+            if t == 'direct':
+                d = r.get('direct') or {'error': 'Unavailable: assignReads could not be called'}
+                obs.append((out['libs'][k], ('raise', d['error'].split(':')[0]) if 'error' in d else ('ok', cells_dict(d['raw']))))
+            else:
+                obs.append((out['libs'][k], self.observed(r, nst(o))[:2]))
+        return obs
+
+    def shrink(self, it, why):
         """re-run the implementation on every single record / pair of records of the failing library and on reduced
-        option sets; keep the smallest input that still violates the specification"""
-        ids = case['lib'] if isinstance(case['lib'], list) else [case['lib']]
+        option sets (shorter histories); keep the smallest input that still violates the specification"""
+        ids = it['lib'] if isinstance(it['lib'], list) else [it['lib']]
         reads = [r for k in ids for r in self.libs[k]['reads']]
         contigs = self.libs[ids[0]]['contigs']
-        best = {'what': why, 'input': {'opts': describe(case['opts']), 'lib': {'contigs': contigs, 'reads': reads}},
-                'impl': self.show(self.obs[i])}
+        t = it['t']
+        steps = self.hists[it['h']]['steps'][:it['k'] + 1] if t == 'history' else None
+        how = {'call': 'create_count_table(args, return_df=True) with a fresh options namespace',
+               'direct': 'assignReads called on every record with these options (joinFeatures / featureTags / sampleTags as '
+                         'create_count_table derives them)',
+               'history': 'create_count_table called once per listed option set on ONE namespace object; between calls only the '
+                          'attributes whose requested value changes are assigned; the LAST table is wrong'}[t]
+
+        def pack(opts_or_steps, sub, ob, why):
+            inp = {'how': how, 'lib': {'contigs': contigs, 'reads': sub}}
+            if t == 'history':
+                inp['history'] = [describe(o) for o in opts_or_steps]
+            else:
+                inp['opts'] = describe(opts_or_steps)
+            return {'what': why, 'input': inp, 'impl': self.show(ob)}
+        cur = steps if t == 'history' else dict(it['opts'])
+        best = pack(cur, reads, it['obs'], why)
         cands = [[r] for r in reads]
         names = {}
         for r in reads:
             names.setdefault(r['name'], []).append(r)
         cands += [v for v in names.values() if len(v) == 2]
-        cur_opts = dict(case['opts'])
         try:
-            out = fw.run_impl('impl_c11.py', {'libs': [{'contigs': contigs, 'reads': c} for c in cands],
-                                              'cases': [{'lib': k, 'opts': cur_opts} for k in range(len(cands))]})
             hit = None
-            for k, r in enumerate(out['cases']):
-                kind, table, _ = self.observed(r, len(cur_opts.get('sampleTags', 'SM').split(',')))
-                y = self.violates(cur_opts, out['libs'][k], kind, table)
+            for sub, (back, ob) in zip(cands, self.rerun(t, cur, contigs, cands)):
+                y = self.violates(cur[-1] if t == 'history' else cur, back, *ob)
                 if y:
-                    hit = (cands[k], y, (kind, table))
+                    hit = (sub, y, ob)
                     break
             if hit is None:
                 return best
             sub, why, ob = hit
+            best = pack(cur, sub, ob, why)
             for _ in range(10):
-                keys = [k for k in describe(cur_opts) if k not in ('joinedFeatureTags', 'featureTags', 'sampleTags')]
                 trial = []
-                for k in keys:
-                    o = dict(cur_opts); o.pop(k)
-                    if k == 'minMQ':
-                        o['minMQ'] = 0
-                    trial.append(o)
-                if not trial:
-                    break
-                out = fw.run_impl('impl_c11.py', {'libs': [{'contigs': contigs, 'reads': sub}],
-                                                  'cases': [{'lib': 0, 'opts': o} for o in trial]})
+                if t == 'history':
+                    if len(cur) > 2:
+                        trial = [cur[1:], cur[:-2] + cur[-1:]]
+                    for j in range(len(cur)):
+                        for k in [k for k in describe(cur[j]) if k not in ('joinedFeatureTags', 'featureTags', 'sampleTags')]:
+                            if all(k in describe(s) for s in cur):      # an option the whole history shares
+                                trial.append([{kk: vv for kk, vv in s.items() if kk != k} for s in cur])
+                        break
+                else:
+                    for k in [k for k in describe(cur) if k not in ('joinedFeatureTags', 'featureTags', 'sampleTags')]:
+                        o = dict(cur); o.pop(k)
+                        if k == 'minMQ':
+                            o['minMQ'] = 0
+                        trial.append(o)
                 nxt = None
-                for o, r in zip(trial, out['cases']):
-                    kind, table, _ = self.observed(r, len(o.get('sampleTags', 'SM').split(',')))
-                    y = self.violates(o, out['libs'][0], kind, table)
+                for tr in trial:
+                    back, ob2 = self.rerun(t, tr, contigs, [sub])[0]
+                    y = self.violates(tr[-1] if t == 'history' else tr, back, *ob2)
                     if y:
-                        nxt = (o, y, (kind, table))
+                        nxt = (tr, y, ob2)
                         break
                 if nxt is None:
                     break
-                cur_opts, why, ob = nxt
-            return {'what': why, 'input': {'opts': describe(cur_opts), 'lib': {'contigs': contigs, 'reads': sub}},
-                    'impl': self.show(ob), 'expected': self.show(('ok', Oracle(cur_opts).table(
-                        fw.run_impl('impl_c11.py', {'libs': [{'contigs': contigs, 'reads': sub}], 'cases': []})['libs'][0])))}
+                cur, why, ob = nxt
+                best = pack(cur, sub, ob, why)
+            back = self.rerun('call', {'joinedFeatureTags': 'chrom'}, contigs, [sub])[0][0]
+            best['expected'] = self.show(('ok', Oracle(cur[-1] if t == 'history' else cur).table(back)))
+            return best
         except Exception as e:
             self.notes.append('shrinking failed: %r' % (e,))
             return best
